@@ -47,7 +47,10 @@ class Ctx:
         self.seed = seed
         self.rng = random.Random(seed * 1000003 + int(prop_id[1:]))
         self.outdir = VERIF if ALT is None else os.path.join(VERIF, "_work", ALT)
-        self.workdir = os.path.join(VERIF, "_work", prop_id) if ALT is None else os.path.join(VERIF, "_work", ALT, "work", prop_id)
+        # one scratch directory per run (two runs of one property, e.g. quick and thorough, may overlap in time)
+        base = os.path.join(VERIF, "_work") if ALT is None else os.path.join(VERIF, "_work", ALT, "work")
+        self.workbase = base
+        self.workdir = os.path.join(base, "%s.%d" % (prop_id, os.getpid()))
         self.t0 = time.time()
         self.failures = []      # dict(signature, what, replay, case)
         self.disagreements = []  # dict(name, case, detail)
@@ -215,6 +218,15 @@ def main():
     ctx = Ctx(prop, tier, seed)
     shutil.rmtree(ctx.workdir, ignore_errors=True)
     os.makedirs(ctx.workdir, exist_ok=True)
+    # scratch directories left behind by runs of this property whose process is gone
+    try:
+        for name in os.listdir(ctx.workbase):
+            head, _, pid = name.partition(".")
+            if head == prop and pid.isdigit() and int(pid) != os.getpid() and not os.path.exists("/proc/%s" % pid) \
+                    and not os.environ.get("VERIF_KEEP"):
+                shutil.rmtree(os.path.join(ctx.workbase, name), ignore_errors=True)
+    except OSError:
+        pass
     # temporary files of this run (multiprocessing manager sockets, tempfile users in the library and in
     # subprocesses) live below the work directory and go away with it, also when a child was killed
     tmpd = os.path.join(ctx.workdir, "tmp")
